@@ -458,6 +458,7 @@ func (fr *frame) exec(instr ssa.Instruction) {
 		case *Map:
 			// iteration order: insertion order (recorded assumption); snapshot keys
 			snap := &Map{}
+			e.mapAccess(x, false)
 			if x != nil {
 				snap.Keys = append([]Value{}, x.Keys...)
 				snap.Vals = append([]Value{}, x.Vals...)
